@@ -13,7 +13,7 @@ PROP = {
                    "block and the pairs found in its encoding (decoded by the independent reference codec) are compared with the "
                    "model - equal lengths, unique channels, surviving items keep the channel they were given, refused operations "
                    "change nothing."),
-    "level_note": "Channels are drawn from 0..32766 (safe for the 16-bit map). For an automatic channel, 'ValueError and nothing changed' is accepted in place of an assignment (the statement only requires that an assigned automatic channel is not in use). Bulk assignment on platform data is held to the invariants only (its docstring does not say whether it replaces).",
+    "level_note": "Explicit channels are drawn from 0..31999 so that automatic channels (max+1) assigned later in a history stay inside the 16-bit map. For an automatic channel, 'ValueError and nothing changed' is accepted in place of an assignment (the statement only requires that an assigned automatic channel is not in use). Bulk assignment on platform data is held to the invariants only (its docstring does not say whether it replaces).",
     "design_ref": "DESIGN.md section 5, C15",
     "rule": "case = {init, ops}; non-trivial = a remove followed by an add, or any edit on a decoded / constructor-filled block; distinct by sha1 of the history",
     "assumptions": [],
@@ -38,6 +38,7 @@ class Base:
         self.start = init["start"]
         self.stats = {"remove-then-add": 0, "edit-on-" + init["start"]: 0, "refused": 0, "auto": 0, "explicit": 0, "bulk": 0, "auto-refused": 0}
         self.removed_once = False
+        self.removed_items = []
         self.make_block(init)
         self.check("init")
 
@@ -58,9 +59,9 @@ class Base:
     def pick_channel(self, op, free):
         used = sorted(self.used())
         if free:
-            c = op.get("ch", 0) % 32767
+            c = op.get("ch", 0) % 32000
             while c in used:
-                c = (c + 1) % 32767
+                c = (c + 1) % 32000
             return c
         return used[op.get("ch", 0) % len(used)] if used else None
 
@@ -145,9 +146,38 @@ class Base:
         self.edited()
 
     def drop_model(self, idx):
+        self.removed_items.append(self.items[self.model[idx][1]])
         del self.model[idx]
         self.removed_once = True
         self.edited()
+
+    def op_readd(self, op):
+        """an item that was removed earlier is added again (automatic or explicit free channel)"""
+        if not self.removed_items:
+            return
+        item, tag = self.removed_items.pop(op.get("idx", 0) % len(self.removed_items))
+        if any(i == id(item) for _, i in self.model):
+            return
+        if op.get("mode") == "free":
+            ch = self.pick_channel(op, True)
+            self.do_add(item, ch)
+        else:
+            used = self.used()
+            try:
+                self.do_add(item, None)
+            except ValueError:
+                self.stats["auto-refused"] += 1
+                self.check("readd-auto-refused")
+                return
+            ch = next((int(c) for c, it in self.exposed() if it is item), None)
+            if ch is None or ch in used:
+                self.ctx.fail("readd/channel", f"{self.t}: re-added item got channel {ch} (in use: {sorted(used)})")
+                return
+        self.register(item, ch, tag)
+        self.stats["remove-then-add"] += 1
+        self.stats["readd"] = self.stats.get("readd", 0) + 1
+        self.edited()
+        self.check("readd")
 
     def finish(self):
         self.check("end")
@@ -165,7 +195,7 @@ class EmgInterp(Base):
         from basictdf.tdfEMG import EMG
         if init["start"] == "decoded":
             k = init.get("k", 2)
-            chans = [(init.get("ch0", 0) + 3 * i) % 32767 for i in range(k)]
+            chans = [(init.get("ch0", 0) + 3 * i) % 32000 for i in range(k)]
             spec = {"t": "emg", "format": 1, "frequency": 1000, "startTime": 0, "nSamples": self.N,
                     "signals": [{"label": f"d{i}", "channel": chans[i], "frames": [fbits(1000 + i)] * self.N} for i in range(k)]}
             self.b, _ = specs.lib_decode("emg", 1, reftdf.encode(spec))
@@ -208,6 +238,8 @@ class EmgInterp(Base):
     def apply(self, op):
         if op["op"] == "add":
             self.op_add(op)
+        elif op["op"] == "readd":
+            self.op_readd(op)
         elif op["op"] == "remove":
             if op["target"] == "present" and self.model:
                 idx = op["idx"] % len(self.model)
@@ -227,7 +259,7 @@ class PlatCalInterp(Base):
         from basictdf.tdfForcePlatformsCalibration import ForcePlatformsCalibrationDataBlock
         if init["start"] == "decoded":
             k = init.get("k", 2)
-            chans = [(init.get("ch0", 0) + 3 * i) % 32767 for i in range(k)]
+            chans = [(init.get("ch0", 0) + 3 * i) % 32000 for i in range(k)]
             spec = {"t": "platCal", "format": 2, "plats": [{"channel": chans[i], "label": f"d{i}", "size": [ONE, ONE], "position": [ONE] * 12} for i in range(k)]}
             self.b, _ = specs.lib_decode("platCal", 2, reftdf.encode(spec))
             for i, (c, p) in enumerate(self.b.platforms):
@@ -279,12 +311,31 @@ class PlatCalInterp(Base):
         o = op["op"]
         if o == "add":
             self.op_add(op)
+        elif o == "readd":
+            self.op_readd(op)
+        elif o == "add-twin":
+            # a distinct object whose content equals an item already in the block
+            if not self.model:
+                return
+            from basictdf.tdfForcePlatformsCalibration import ForcePlatformInfo
+            src, tag = self.items[self.model[op["idx"] % len(self.model)][1]]
+            twin = ForcePlatformInfo(src.label, np.array(src.size, dtype="<f4"), np.array(src.position, dtype="<f4"))
+            ch = self.pick_channel(op, True)
+            self.do_add(twin, ch)
+            self.register(twin, ch, tag)
+            self.stats["twins"] = self.stats.get("twins", 0) + 1
+            self.edited()
+            self.check("add-twin")
         elif o == "remove":
             tgt = op["target"]
             if tgt in ("index", "item") and self.model:
                 idx = op["idx"] % len(self.model)
                 item = self.items[self.model[idx][1]][0]
                 arg = idx if tgt == "index" else item
+                if tgt == "item":
+                    # list semantics: the first item EQUAL to the argument goes (twins compare equal)
+                    tag = self.items[self.model[idx][1]][1]
+                    idx = next(j for j, (_, i) in enumerate(self.model) if self.items[i][1] == tag)
                 ok, _ = self.ctx.must(lambda: self.b.remove_platform(arg), f"remove-{tgt}", f"removing platform #{idx} by {tgt}")
                 if ok:
                     self.drop_model(idx)
@@ -299,6 +350,9 @@ class PlatCalInterp(Base):
             if len(self.model) >= 2:
                 idxs = sorted({op["idx"] % len(self.model), (op["idx"] // 7) % len(self.model)})
                 items = [self.items[self.model[i][1]][0] for i in idxs]
+                tags = [self.items[self.model[i][1]][1] for i in idxs]
+                if len(set(tags)) != len(tags) or any(sum(1 for _, j in self.model if self.items[j][1] == tg) > 1 for tg in tags):
+                    return  # twins involved: which of two equal items goes first is list semantics, exercised by single removals
                 ok, _ = self.ctx.must(lambda: self.b.remove_platforms(items), "remove-many", "removing several platforms by item")
                 if ok:
                     for i in reversed(idxs):
@@ -310,10 +364,10 @@ class PlatCalInterp(Base):
             new = [self.fresh() for _ in range(k)]
             if op["mode"] == "free":
                 chans, used = [], set(self.used())
-                c = op.get("ch", 0) % 32767
+                c = op.get("ch", 0) % 32000
                 for _ in range(k):
                     while c in used:
-                        c = (c + 1) % 32767
+                        c = (c + 1) % 32000
                     chans.append(c)
                     used.add(c)
                 ok, _ = self.ctx.must(lambda: self.b.add_platforms([p for p, _ in new], chans), "add-many", "adding several platforms with free channels")
@@ -374,7 +428,7 @@ class PlatDataInterp(Base):
         from basictdf.tdfForcePlatformsData import ForcePlatformsDataBlock
         if init["start"] == "decoded":
             k = init.get("k", 2)
-            chans = [(init.get("ch0", 0) + 3 * i) % 32767 for i in range(k)]
+            chans = [(init.get("ch0", 0) + 3 * i) % 32000 for i in range(k)]
             spec = {"t": "platData", "format": 1, "frequency": 100, "startTime": 0, "nFrames": self.N,
                     "plats": [{"channel": chans[i], "frames": [[fbits(5000 + i)] * 6] * self.N} for i in range(k)]}
             self.b, _ = specs.lib_decode("platData", 1, reftdf.encode(spec))
@@ -457,20 +511,22 @@ def summarize(it, case):
 
 def inits(t):
     starts = {"emg": ["empty", "decoded", "decoded"], "platCal": ["empty", "decoded", "constructor", "constructor"], "platData": ["empty", "decoded", "decoded"]}[t]
-    return st.fixed_dictionaries({"start": st.sampled_from(starts), "k": st.integers(0, 3), "ch0": st.one_of(st.integers(0, 5), st.integers(0, 32766))})
+    return st.fixed_dictionaries({"start": st.sampled_from(starts), "k": st.integers(0, 3), "ch0": st.one_of(st.integers(0, 5), st.integers(0, 31999))})
 
 
 def ops(t):
-    ch = st.one_of(st.integers(0, 6), st.integers(0, 32766))
+    ch = st.one_of(st.integers(0, 6), st.integers(0, 31999))
     idx = st.integers(0, 1000)
     add = st.fixed_dictionaries({"op": st.just("add"), "mode": st.sampled_from(["auto", "auto", "free", "free", "taken"]), "ch": ch, "np": st.booleans()})
+    readd = st.fixed_dictionaries({"op": st.just("readd"), "mode": st.sampled_from(["auto", "free"]), "idx": idx, "ch": ch})
     if t == "emg":
         rem = st.fixed_dictionaries({"op": st.just("remove"), "target": st.sampled_from(["present", "present", "absent"]), "idx": idx})
-        return st.one_of(add, add, rem)
+        return st.one_of(add, add, rem, rem, readd)
     if t == "platCal":
         rem = st.fixed_dictionaries({"op": st.just("remove"), "target": st.sampled_from(["index", "item", "index-out-of-range", "absent-item"]), "idx": idx})
         many = st.fixed_dictionaries({"op": st.sampled_from(["remove-many", "add-many", "assign"]), "mode": st.sampled_from(["free", "auto", "collide"]), "idx": idx, "ch": ch})
-        return st.one_of(add, add, rem, rem, many)
+        twin = st.fixed_dictionaries({"op": st.just("add-twin"), "idx": idx, "ch": ch})
+        return st.one_of(add, add, rem, rem, rem, many, readd, twin)
     assign = st.fixed_dictionaries({"op": st.just("assign"), "mode": st.sampled_from(["valid", "valid", "collide"]), "idx": idx})
     return st.one_of(add, add, add, assign)
 
